@@ -241,7 +241,7 @@ Definition pair_ok (a b : access) : bool :=
 (* the known unsynchronised pairs of the unchanged tree (known_findings.json):
    F11  IteratorPool.enabled: read in get() without pool.l, written by disable()/enable()
         under pool.l;
-   F23  FBDNSDB.dbConfig.Path: read by the watcher goroutine (WatchDBAndReload /
+   F29  FBDNSDB.dbConfig.Path: read by the watcher goroutine (WatchDBAndReload /
         watchDBAndReload) without reloadMu, written by Reload under reloadMu.Lock.
    The class names the field AND the unlocked reader AND the writer, so that any other
    unsynchronised access to the same field (say, a lock dropped from disable) is outside. *)
